@@ -61,6 +61,8 @@ func checkC20(c *Ctx) {
 	c.Rule("R20.2", "parsing never partially updates: stores only in matching arms; exact then ToLower; SetLevel/returns only under err == nil", 6)
 	c.Rule("R20.3", "HTTP handler: single SetLevel under PUT ∧ decode ok; 4xx before every error body; level read after store; decoders reject missing values", 3)
 	c.Rule("R20.4", "LevelFlag registers the variable it returns; Set parses, Get reads", 2)
+	c.Rule("R20.5", "the level types offer their text forms through the method sets encoding/json, yaml and flag look at: values marshal, pointers unmarshal", 4)
+	c20TextMethods(c, "R20.5")
 
 	lvNamed := c.Named(CorePath, "Level")
 	strFn := c.Method(CorePath, "Level", "String")
